@@ -10,10 +10,13 @@ package websocket
 import (
 	"bufio"
 	"context"
+	"crypto/tls"
 	"errors"
 	"hash"
+	"io"
 	"net"
 	"net/http"
+	"net/http/httptrace"
 	"net/url"
 	"sync"
 	"time"
@@ -185,4 +188,204 @@ func vfContextWithTimeout(parent context.Context, d time.Duration) (context.Cont
 		nc.deadline = pd
 	}
 	return nc, func() { nc.cancelled = true }
+}
+
+// ---- client side: request serialisation and response parsing ----
+
+// vfReqLog records the request objects handed to (*http.Request).Write.
+type vfReqRec struct {
+	req *http.Request
+	to  interface{} // the writer it was written to
+}
+
+var vfReqLog []vfReqRec
+var vfReqWriteFail int // 1-based index of the Request.Write call that fails (0: none)
+
+var vfErrReqWrite = errors.New("vf: injected request write error")
+
+// vfRequestWrite models (*http.Request).Write: the request object is handed
+// to the harness (which judges it against the RFC) and a placeholder head is
+// written to the connection, so that transport faults and deadlines apply.
+func vfRequestWrite(r *http.Request, w interface {
+	Write([]byte) (int, error)
+}) error {
+	vfReqLog = append(vfReqLog, vfReqRec{req: r, to: w})
+	if vfOnRequest != nil {
+		vfOnRequest(r)
+	}
+	if vfReqWriteFail > 0 && len(vfReqLog) == vfReqWriteFail {
+		return vfErrReqWrite
+	}
+	_, err := w.Write([]byte("<request head>\r\n\r\n"))
+	return err
+}
+
+func vfRequestWithContext(r *http.Request, ctx context.Context) *http.Request {
+	r2 := new(http.Request)
+	*r2 = *r
+	return r2
+}
+
+// vfRespSpec is the reply the harness scripted: the model of
+// http.ReadResponse consumes exactly the head bytes from the reader and
+// returns this object (the harness builds head bytes that a real parser reads
+// as the same object).
+type vfRespSpec struct {
+	status     string // text after "HTTP/1.1 "
+	statusCode int
+	header     http.Header
+	body       []byte
+	headLen    int // number of bytes of the head on the wire
+	err        error
+}
+
+var vfRespQueue []*vfRespSpec
+
+type vfBody struct {
+	data   []byte
+	pos    int
+	closed int
+	reads  int
+	asked  int
+}
+
+func (b *vfBody) Read(p []byte) (int, error) {
+	b.reads++
+	b.asked += len(p)
+	if b.pos >= len(b.data) {
+		return 0, io.EOF
+	}
+	n := copy(p, b.data[b.pos:])
+	b.pos += n
+	return n, nil
+}
+
+func (b *vfBody) Close() error { b.closed++; return nil }
+
+var vfErrBadResponse = errors.New("malformed HTTP response (model)")
+
+func vfReadResponse(br *bufio.Reader, req *http.Request) (*http.Response, error) {
+	if len(vfRespQueue) == 0 {
+		vfAssume(false)
+	}
+	spec := vfRespQueue[0]
+	vfRespQueue = vfRespQueue[1:]
+	// consume the head through the caller's buffered reader
+	for i := 0; i < spec.headLen; i++ {
+		if _, err := br.ReadByte(); err != nil {
+			if err == io.EOF {
+				err = io.ErrUnexpectedEOF
+			}
+			return nil, err
+		}
+	}
+	if spec.err != nil {
+		return nil, spec.err
+	}
+	resp := &http.Response{Status: spec.status, StatusCode: spec.statusCode, Proto: "HTTP/1.1", ProtoMajor: 1, ProtoMinor: 1,
+		Header: spec.header, Body: &vfBody{data: spec.body}, Request: req}
+	return resp, nil
+}
+
+func vfResponseCookies(r *http.Response) []*http.Cookie { return nil }
+func vfRequestAddCookie(r *http.Request, c *http.Cookie)  {}
+
+func vfNopCloser(r io.Reader) io.ReadCloser { return vfNop{r} }
+
+type vfNop struct{ io.Reader }
+
+func (vfNop) Close() error { return nil }
+
+// ---- crypto/tls at call-trace level ----
+
+type vfTLSRec struct {
+	inner      net.Conn
+	serverName string
+	skipVerify bool
+	handshook  bool
+	verified   string
+	closed     int
+}
+
+var vfTLSMu sync.Mutex
+var vfTLSConns map[*tls.Conn]*vfTLSRec
+var vfTLSLog []*vfTLSRec
+var vfTLSFail int // 1: HandshakeContext fails, 2: VerifyHostname fails
+
+var vfErrTLS = errors.New("vf: injected TLS failure")
+
+func vfTLSClient(conn net.Conn, cfg *tls.Config) *tls.Conn {
+	tc := new(tls.Conn)
+	rec := &vfTLSRec{inner: conn, serverName: cfg.ServerName, skipVerify: cfg.InsecureSkipVerify}
+	vfTLSMu.Lock()
+	if vfTLSConns == nil {
+		vfTLSConns = map[*tls.Conn]*vfTLSRec{}
+	}
+	vfTLSConns[tc] = rec
+	vfTLSLog = append(vfTLSLog, rec)
+	vfTLSMu.Unlock()
+	return tc
+}
+
+func vfTLSRecOf(c *tls.Conn) *vfTLSRec {
+	vfTLSMu.Lock()
+	defer vfTLSMu.Unlock()
+	return vfTLSConns[c]
+}
+
+func vfTLSHandshakeContext(c *tls.Conn, ctx context.Context) error {
+	if vfTLSFail == 1 {
+		return vfErrTLS
+	}
+	vfTLSRecOf(c).handshook = true
+	return nil
+}
+
+func vfTLSVerifyHostname(c *tls.Conn, host string) error {
+	if vfTLSFail == 2 {
+		return vfErrTLS
+	}
+	vfTLSRecOf(c).verified = host
+	return nil
+}
+
+func vfTLSConnectionState(c *tls.Conn) tls.ConnectionState { return tls.ConnectionState{} }
+
+func vfTLSClose(c *tls.Conn) error {
+	r := vfTLSRecOf(c)
+	r.closed++
+	return r.inner.Close() // crypto/tls documents that Close closes the underlying connection
+}
+
+func vfTLSRead(c *tls.Conn, p []byte) (int, error)  { return vfTLSRecOf(c).inner.Read(p) }
+func vfTLSWrite(c *tls.Conn, p []byte) (int, error) { return vfTLSRecOf(c).inner.Write(p) }
+func vfTLSSetDeadline(c *tls.Conn, t time.Time) error {
+	return vfTLSRecOf(c).inner.SetDeadline(t)
+}
+func vfTLSSetReadDeadline(c *tls.Conn, t time.Time) error {
+	return vfTLSRecOf(c).inner.SetReadDeadline(t)
+}
+func vfTLSSetWriteDeadline(c *tls.Conn, t time.Time) error {
+	return vfTLSRecOf(c).inner.SetWriteDeadline(t)
+}
+
+func vfTLSConfigClone(c *tls.Config) *tls.Config {
+	c2 := new(tls.Config)
+	c2.ServerName = c.ServerName
+	c2.InsecureSkipVerify = c.InsecureSkipVerify
+	c2.NextProtos = c.NextProtos
+	return c2
+}
+
+func vfContextClientTrace(ctx context.Context) *httptrace.ClientTrace { return nil }
+
+var vfDefaultDialerUsed int
+var vfDefaultDialConn net.Conn
+
+func vfNetDialerDialContext(d *net.Dialer, ctx context.Context, network, addr string) (net.Conn, error) {
+	vfDefaultDialerUsed++
+	if vfDefaultDialConn == nil {
+		return nil, vfErrInjected
+	}
+	return vfDefaultDialConn, nil
 }
